@@ -462,10 +462,29 @@ def _forwhile(n, log, fq):
     log.append((fq, "for", "for(; c; step) written as while"))
 
 
+def _const_right(n, log, fq):
+    """`-1 == x`, `0 != x`  ->  `x == -1`, `x != 0`: equality is symmetric, the rules read the variable on the left"""
+    for c in n.get("inner", []) or []:
+        if c:
+            _const_right(c, log, fq)
+    if n.get("kind") == "BinaryOperator" and n.get("opcode") in ("==", "!=") and len(n.get("inner") or []) == 2:
+        l, r = n["inner"]
+
+        def lit(x):
+            x = strip(x, casts=True)
+            if x.get("kind") in ("IntegerLiteral", "FloatingLiteral", "CXXBoolLiteralExpr", "CXXNullPtrLiteralExpr"):
+                return True
+            return x.get("kind") == "UnaryOperator" and x.get("opcode") in ("-", "+") and kids(x) and lit(kids(x)[0])
+        if l and r and lit(l) and not lit(r):
+            n["inner"] = [r, l]
+            log.append((fq, "==", "constant moved to the right of == / !="))
+
+
 def run(tu):
     log = []
     for f in tu.all_fns():
         if f.body is not None:
+            _const_right(f.body, log, f.qual)
             _rangefor(f.body, log, f.qual)
             _forwhile(f.body, log, f.qual)
             _rec3(f.body, log, f.qual)
